@@ -269,7 +269,7 @@ impl World {
                 }
             } else if n_open > 0 {
                 cx.count("c13_total_borrowing_exact_nonempty");
-                cx.m.nontrivial(format!("{TAG}|{is_long}|{total}").as_bytes());
+                cx.nontrivial(format!("{TAG}|{is_long}|{total}").as_bytes());
             }
             // pending borrowing fees
             let m = &self.market;
